@@ -234,7 +234,27 @@ pub fn gen_log(rng: &mut Rng, records: usize) -> Vec<u8> {
 
 const BLOCKS: [Option<usize>; 12] = [Some(0), Some(1), Some(2), Some(3), Some(4), Some(5), Some(8), Some(64), Some(4096), None, Some(2), Some(7)];
 
-fn gen_reader_script(rng: &mut Rng, stream_len: usize) -> Vec<Step> {
+fn gen_reader_script(rng: &mut Rng, stream_len: usize, hard_errors: bool) -> Vec<Step> {
+    if hard_errors && rng.chance(1, 6) {
+        // Hard (non-EINTR) errors: mostly right after a delivery, i.e. inside
+        // a refill that already holds bytes (the arena read then reports a
+        // short read and swallows the error), sometimes before any byte (the
+        // pump call fails and the caller pumps again).
+        let mut v = Vec::new();
+        for _ in 0..rng.range(1, 40) {
+            match rng.below(8) {
+                0..=2 => {
+                    v.push(Step::Deliver(rng.range(1, 9)));
+                    v.push(Step::Fail(*rng.pick(&[std::io::ErrorKind::WouldBlock, std::io::ErrorKind::TimedOut, std::io::ErrorKind::Other])));
+                }
+                3 => v.push(Step::Fail(std::io::ErrorKind::WouldBlock)),
+                4 => v.push(Step::Interrupted),
+                5 => v.push(Step::Fill),
+                _ => v.push(Step::Deliver(rng.range(1, 5))),
+            }
+        }
+        return v;
+    }
     match rng.below(6) {
         0 => Vec::new(), // full reads
         5 => {
@@ -289,6 +309,8 @@ struct ChunkObs {
     expose: ExposeStats,
     interrupts: u64,
     block_changes: u64,
+    pump_errors: u64,
+    swallowed_errors: u64,
 }
 
 fn run_chunker(stream: &[u8], script: Vec<Step>, block: usize, arena_mode: ArenaMode, seed: u64, obs: &mut ChunkObs) -> Result<(), Fail> {
@@ -298,6 +320,7 @@ fn run_chunker(stream: &[u8], script: Vec<Step>, block: usize, arena_mode: Arena
     owned.add(stream);
     {
         let mut rng = Rng::new(seed);
+        let script_failures = script.iter().filter(|s| matches!(s, Step::Fail(_))).count();
         let mut reader = ScriptedReader::new(stream, script, Tail::ServeAll);
         reader.log_calls = false;
         let mut arena = ByteArena::new();
@@ -312,7 +335,7 @@ fn run_chunker(stream: &[u8], script: Vec<Step>, block: usize, arena_mode: Arena
         let mut pos = 0usize;
         let mut prev_data_last: Option<u8> = None;
         let mut held: Vec<(usize, AnchoredSlice)> = Vec::new();
-        let max_pumps = stream.len() * 2 + 16;
+        let max_pumps = stream.len() * 2 + 16 + script_failures;
         let mut eof_seen = 0;
         loop {
             obs.pumps += 1;
@@ -325,9 +348,22 @@ fn run_chunker(stream: &[u8], script: Vec<Step>, block: usize, arena_mode: Arena
             if this_block != block {
                 obs.block_changes += 1;
             }
-            let chunk = chunker
-                .pump(&mut arena, &mut reader, this_block)
-                .map_err(|e| fail(&["C08", "C17"], "pump-err", format!("pump failed on a benign reader: {}", e)))?;
+            let failures_before = reader.failures;
+            let chunk = match chunker.pump(&mut arena, &mut reader, this_block) {
+                Ok(c) => c,
+                Err(e) => {
+                    // Only a scripted hard error that this very call ran into
+                    // may surface; the caller then simply pumps again.
+                    if reader.failures > failures_before && e.kind() != std::io::ErrorKind::Interrupted {
+                        obs.pump_errors += 1;
+                        if obs.pump_errors as usize > script_failures {
+                            return Err(fail(&["C08", "C17"], "pump-err", format!("pump failed more often ({}) than the reader did ({})", obs.pump_errors, script_failures)));
+                        }
+                        continue;
+                    }
+                    return Err(fail(&["C08", "C17"], "pump-err", format!("pump failed on a benign reader: {}", e)));
+                }
+            };
             match chunk {
                 Chunk::Eof => {
                     if pos != stream.len() {
@@ -409,6 +445,7 @@ fn run_chunker(stream: &[u8], script: Vec<Step>, block: usize, arena_mode: Arena
             }
         }
         obs.interrupts += reader.interrupts;
+        obs.swallowed_errors += reader.failures.saturating_sub(obs.pump_errors);
         // Held Data slices must still hold their bytes after all the arena churn.
         drop(arena);
         drop(spare);
@@ -717,6 +754,11 @@ pub fn run(ctx: &mut Ctx) {
     let chunk_cases = ctx.args.get_u64("chunk-cases", if thorough { 2_000_000 } else { 100_000 });
     let reader_cases = ctx.args.get_u64("reader-cases", if thorough { 2_000_000 } else { 100_000 });
     let log_cases = ctx.args.get_u64("log-cases", if thorough { 400 } else { 40 });
+    // Exploration only (off in every registered check): readers that return
+    // hard, non-EINTR errors.  C08 quantifies over short-read / EINTR
+    // schedules; under hard errors the unchanged chunker itself flushes a
+    // carried FE early (see DESIGN 11.9), so nothing is demanded of them.
+    let hard_errors = ctx.args.get_u64("hard-errors", 0) == 1;
     let mut index = 0u64;
 
     if has("chunker") {
@@ -735,7 +777,7 @@ pub fn run(ctx: &mut Ctx) {
             } else {
                 BLOCKS[rng.usize_below(BLOCKS.len())].unwrap_or(hcobs::DEFAULT_BLOCK_SIZE)
             };
-            let script = gen_reader_script(&mut rng, stream.len());
+            let script = gen_reader_script(&mut rng, stream.len(), hard_errors);
             let arena_mode = *rng.pick(&[ArenaMode::Fresh, ArenaMode::NearlyFull, ArenaMode::FlushBetween, ArenaMode::SwapBetween]);
             let seed = rng.next_u64();
             let cfg = Json::obj().with("arena", Json::Str(format!("{:?}", arena_mode))).with("reader_script_len", Json::U(script.len() as u64));
@@ -753,6 +795,8 @@ pub fn run(ctx: &mut Ctx) {
                     ctx.feature_n("stream.chunker.trailing_FE_at_end_of_stream", obs.trailing_fe_at_eof);
                     ctx.feature_n("stream.chunker.FE_FE_FD", obs.fe_fe_fd);
                     ctx.feature_n("stream.chunker.reader_interrupts", obs.interrupts);
+                    ctx.feature_n("stream.chunker.pump_calls_failing_on_a_hard_reader_error_then_resumed", obs.pump_errors);
+                    ctx.feature_n("stream.chunker.hard_reader_errors_after_bytes_in_the_same_refill", obs.swallowed_errors);
                     if obs.interrupts > 65_536 {
                         ctx.feature("stream.chunker.more_than_65536_interrupts_in_one_stream");
                     }
@@ -784,7 +828,7 @@ pub fn run(ctx: &mut Ctx) {
         } else {
             BLOCKS[rng.usize_below(BLOCKS.len())]
         };
-        let script = gen_reader_script(rng, stream.len());
+        let script = gen_reader_script(rng, stream.len(), false);
         let judge = gen_judge(rng, stream);
         let clone_midway = rng.chance(1, 5);
         let cfg = Json::obj().with("judge", Json::Str(format!("{:?}", judge))).with("reader_script_len", Json::U(script.len() as u64)).with("clone_between_records", Json::Bool(clone_midway));
